@@ -114,7 +114,7 @@ pub struct RunStats {
 pub struct RunOut {
     pub violation: Option<Violation>,
     /// thread chosen at each scheduling point (the explicit schedule)
-    pub decisions: Vec<u8>,
+    pub decisions: Vec<u16>,
     pub log_hash: u64,
     pub sched_hash: u64,
     pub stats: RunStats,
@@ -132,9 +132,9 @@ pub enum Schedule {
     /// draw from the schedule PRNG derived from the scenario seed
     Seeded,
     /// consume this list exactly; running out or naming a non-runnable thread is a harness error
-    Strict(Vec<u8>),
+    Strict(Vec<u16>),
     /// consume this list as far as it makes sense, fall back to "stay / lowest runnable"
-    Lenient(Vec<u8>),
+    Lenient(Vec<u16>),
 }
 
 #[derive(PartialEq, Clone, Copy, Debug)]
@@ -162,10 +162,10 @@ struct ThState {
 
 struct State {
     rng: Rng,
-    list: Option<(Vec<u8>, usize, bool)>,
+    list: Option<(Vec<u16>, usize, bool)>,
     th: Vec<ThState>,
     ops_done: u64,
-    decisions: Vec<u8>,
+    decisions: Vec<u16>,
     log: H64,
     sched: H64,
     violation: Option<Violation>,
@@ -340,7 +340,7 @@ impl Shared {
                 }
             }
         };
-        st.decisions.push(chosen as u8);
+        st.decisions.push(chosen as u16);
         st.sched.u(chosen as u64);
         st.stats.sched_points += 1;
         chosen
@@ -674,6 +674,13 @@ fn thread_sleeps(tid: i64) -> bool {
     }
 }
 
+/// The coverage probe reads the calling thread's memo through the library. On a changed tree
+/// that access itself may panic (a per-thread instance that cannot be handed out, a destroyed
+/// thread-local): that is for the operations to show (I1), not for the probe to die of.
+fn probe_thread_memo() -> Option<Foot> {
+    std::panic::catch_unwind(|| Foot::from_view(&DodecahedronProjection::verif_thread_memo_view())).ok()
+}
+
 fn sim_thread_inner(sh: Arc<Shared>, me: usize) {
     {
         let tid = unsafe { syscall(186) }; // SYS_gettid on x86_64
@@ -722,9 +729,9 @@ fn sim_thread_inner(sh: Arc<Shared>, me: usize) {
                 // diagnostic: did anyone else change this thread's memo since its last own op?
                 // (not before the first memo op, so that the thread's lazy init runs inside the op)
                 SUPPRESS.with(|s| s.set(true));
-                let v = Foot::from_view(&DodecahedronProjection::verif_thread_memo_view());
+                let v = probe_thread_memo();
                 SUPPRESS.with(|s| s.set(false));
-                if let Some(p) = prev_view {
+                if let (Some(p), Some(v)) = (prev_view, v) {
                     if p != v {
                         sh.st.lock().unwrap_or_else(|e| e.into_inner()).stats.foreign_memo_change += 1;
                     }
@@ -749,10 +756,10 @@ fn sim_thread_inner(sh: Arc<Shared>, me: usize) {
             }
             let view = if probe {
                 SUPPRESS.with(|s| s.set(true));
-                let v = Foot::from_view(&DodecahedronProjection::verif_thread_memo_view());
+                let v = probe_thread_memo();
                 SUPPRESS.with(|s| s.set(false));
-                prev_view = Some(v);
-                Some(v)
+                prev_view = v;
+                v
             } else {
                 None
             };
